@@ -773,6 +773,81 @@ func fwLongDrop(tr *vTrace, r0 *rand.Rand, cfg fwStreamCfg) {
 	}
 }
 
+// NACK-heavy histories (C03): variant 0 -- more drop runs than the interval table of packetmap holds (128), every second packet
+// withheld, a cache that still has everything, then NACKs for the oldest numbers, for random ones and for recent ones;
+// variant 1 -- nothing dropped yet, the temporal layer is switched down, then NACKs for two consecutive old numbers (the second
+// one belongs to the layer that is filtered now) before the stream continues, again with NACKs for old and recent numbers.
+func fwNackHeavy(tr *vTrace, r0 *rand.Rand, cfg fwStreamCfg, variant int) {
+	start := []int{0, 65300, 57344, r0.Intn(65536)}[r0.Intn(4)]
+	r := fwNewRig(tr, cfg, start, 1024, "nackheavy")
+	pos := 0
+	pid := r0.Intn(cfg.pidm)
+	send := func(tid int, kf bool) *fwPkt {
+		t := fwTruth{Pid: pid, Tid: tid, Start: 1, End: 1, Marker: 1, Kf: vB(kf), Tidup: vB(kf)}
+		p := r.packet(pos, func() (fwTruth, int) { return t, 60 })
+		pos++
+		pid = (pid + 1) % cfg.pidm
+		r.deliver(p, true)
+		return p
+	}
+	pin := func(tid int) {
+		l := r.down.getLayerInfo()
+		l.maxTid, l.tid, l.wantedTid = 1, uint8(tid), uint8(tid)
+		r.down.setLayerInfo(l)
+		r.emit(map[string]any{"ev": "Pin", "la": fwLayerOf(r.down)})
+	}
+	outs := func() []int {
+		o := []int{}
+		for k := 0; k < pos; k++ {
+			if p := r.pk[k]; p != nil && p.sent {
+				o = append(o, p.fo)
+			}
+		}
+		return o
+	}
+	send(0, true)
+	if variant == 0 {
+		pin(0)
+		n := 2 * (135 + r0.Intn(60))
+		for i := 0; i < n; i++ {
+			send(1-i%2, false)
+		}
+		o := outs()
+		for k := 0; k < 50 && k < len(o); k++ {
+			r.nack(uint16(o[k]))
+		}
+		for k := 0; k < 40; k++ {
+			r.nack(uint16(o[r0.Intn(len(o))]))
+			if k%4 == 0 {
+				send(k/4%2, false)
+			}
+		}
+	} else {
+		pin(1)
+		n := 8 + r0.Intn(20)
+		for i := 0; i < n; i++ {
+			send(1-i%2, false)
+		}
+		o := outs()
+		pin(0)
+		// an old packet of the base layer and its successor, in one feedback message as a browser would send them
+		k := 1 + 2*r0.Intn((len(o)-2)/2)
+		if r.pk[k] != nil && r.pk[k].truth.Tid != 0 {
+			k++
+		}
+		r.nack(uint16(o[k]))
+		r.nack(uint16(o[k] + 1))
+		for i := 0; i < 30; i++ {
+			send(1-i%2, false)
+			if i%3 == 1 {
+				oo := outs()
+				r.nack(uint16(oo[r0.Intn(len(oo))]))
+				r.nack(uint16(r.lastOut - r0.Intn(3)))
+			}
+		}
+	}
+}
+
 type fwScript struct {
 	Flags []struct {
 		Codec string  `json:"codec"`
@@ -891,6 +966,9 @@ func TestVerifForward(t *testing.T) {
 	}
 	for i := 0; i < vEnvInt("VERIF_LONGDROP", 1); i++ {
 		fwLongDrop(tr, r0, cfgs[i%2])
+	}
+	for i := 0; i < 2*vEnvInt("VERIF_NACKHEAVY", 2); i++ {
+		fwNackHeavy(tr, r0, cfgs[(i/2)%3], i%2)
 	}
 	for i := 0; i < n; i++ {
 		fwRandomStream(tr, r0, cfgs[i%len(cfgs)], nf, "layered")
